@@ -42,7 +42,7 @@ PIX = {"empty": b"", "short": R.pixel_file(100), "hdr": R.pixel_file(1078), "mid
 def arts(rng, thorough):
     out = [R.gen_art(rng, 1, 2, 1, layer_counts=(1, 2)), R.gen_art(rng, 2, 3, 2), R.gen_art(rng, 0, 0, 1), R.gen_art(rng, 1, 0, 0),
            R.Art([], [], [], 0)]
-    for _ in range(12 if thorough else 3): out.append(R.gen_art(rng))
+    for _ in range(7 if thorough else 3): out.append(R.gen_art(rng))
     # a zero-width image of height h makes the bitmap writer run h empty row writes: terminating, but 2^31 of them outlast the
     # watchdog.  Zero widths are exercised with small heights in image_lattice; here every width is > 0 so that the height field
     # can take every boundary value.
@@ -85,7 +85,7 @@ def cases(tier, rng):
             kind = name.split(".")[-1].rstrip("0123456789")
             yield Case(f"!prt.use {mutate(b, off, w, v).hex()} {PIX['mid'].hex()} 1", check=use_check, tag="field-" + kind)
         # two fields at once
-        for _ in range(60 if thorough else 15):
+        for _ in range(40 if thorough else 15):
             if len(fields) < 2: break
             (o1, w1, _), (o2, w2, _) = rng.sample(fields, 2)
             mb = mutate(mutate(b, o1, w1, rng.choice({4: BOUND32, 2: BOUND16, 1: BOUND8}[w1])), o2, w2, rng.choice({4: BOUND32, 2: BOUND16, 1: BOUND8}[w2]))
